@@ -182,11 +182,35 @@ func (c *Ctx) genC18() {
 		issuers := []*string{sp(idpEntity), sp("https://evil.example.org/idp"), nil, sp(""), sp(idpEntity + "x")}
 		stats := []string{successSt, "urn:oasis:names:tc:SAML:2.0:status:Responder", "", successSt + "x"}
 		iis := []int64{-1000, -(delay - 5000), -(delay + 5000), -3600000, 3600000, -(delay - 20000)}
+		// single-dimension perturbations, always all of them (every other field correct)
+		for _, d := range dests {
+			l := base()
+			l.Dest = d
+			c.runLogout(l, e, delay)
+		}
+		for _, is := range issuers {
+			l := base()
+			l.Issuer = is
+			c.runLogout(l, e, delay)
+		}
+		for _, st := range stats {
+			l := base()
+			l.Status = st
+			c.runLogout(l, e, delay)
+		}
+		for _, dl := range []int64{90000, 30000, 600000} {
+			for _, ii := range []int64{-1000, -(dl - 5000), -(dl + 5000), -(dl + 60000), -(2*dl - 5000), -(2*dl + 5000), -3600000, 3600000, -(dl / 2)} {
+				l := base()
+				l.II = time.Now().UnixMilli() + ii
+				c.runLogout(l, e, dl)
+			}
+		}
+		// combinations, sampled in the quick tier
 		for _, d := range dests {
 			for _, is := range issuers {
 				for _, st := range stats {
 					for _, ii := range iis {
-						if c.quick() && c.chance(0.6) {
+						if c.quick() && c.chance(0.7) {
 							continue
 						}
 						l := base()
